@@ -524,8 +524,21 @@ func (l *List) Merge(sta funcGen.Stack[Value]) (*List, error) {
 	}
 	if otherList, ok := other.ToList(); ok {
 		return NewListFromIterable(func(st funcGen.Stack[Value]) iterator.Producer[Value] {
-			// the two producers run in their own goroutines, so each needs its own stack
-			return iterator.Merge(recoverProducer(l.iterable(funcGen.NewEmptyStack[Value]())), recoverProducer(otherList.iterable(funcGen.NewEmptyStack[Value]())),
+			// The two producers run in their own goroutines, so each needs its own stack. If
+			// the consumer of the merged list stops early, these goroutines would go on
+			// reading their source up to its end, so the sources are stopped explicitly.
+			var stopped atomic.Bool
+			stoppable := func(p iterator.Producer[Value]) iterator.Producer[Value] {
+				return func(yield iterator.Consumer[Value]) {
+					p(func(v Value, err error) bool {
+						if stopped.Load() {
+							return false
+						}
+						return yield(v, err)
+					})
+				}
+			}
+			merged := iterator.Merge(stoppable(recoverProducer(l.iterable(funcGen.NewEmptyStack[Value]()))), stoppable(recoverProducer(otherList.iterable(funcGen.NewEmptyStack[Value]()))),
 				func(a, b Value) (bool, error) {
 					st.Push(a)
 					st.Push(b)
@@ -539,6 +552,10 @@ func (l *List) Merge(sta funcGen.Stack[Value]) (*List, error) {
 						return false, errors.New("function in merge needs to return a bool, (a<b)")
 					}
 				})
+			return func(yield iterator.Consumer[Value]) {
+				defer stopped.Store(true)
+				merged(yield)
+			}
 		}), nil
 	} else {
 		return nil, errors.New("first argument in merge needs to be a list")
